@@ -272,6 +272,15 @@ def run(ctx):
         back = timeutils.unmarshall_time(timeutils.marshall_now(u))
         if back != u or back.utcoffset() != datetime.timedelta(0):
             problems.append('UTC round trip')
+        # an aware datetime in a fixed-offset zone: the same instant comes back, or the call refuses - never another instant
+        for mins in (60, -300, 330):
+            fx = dt.replace(tzinfo=datetime.timezone(datetime.timedelta(minutes=mins)))
+            try:
+                bk = timeutils.unmarshall_time(timeutils.marshall_now(fx))
+            except Exception:
+                bk = None
+            if bk is not None and (bk.tzinfo is None or bk != fx):
+                problems.append('fixed-offset round trip of %s -> %s' % (fx, bk))
         # the marshalled form belongs to the caller: reading it does not change it, reading it twice gives the same instant
         for src in (u, dt):
             form = timeutils.marshall_now(src)
@@ -321,6 +330,13 @@ def run(ctx):
                 os.environ['TZ'] = zone
                 _t.tzset()
                 try:
+                    # the overridden clock as seconds since the epoch does not depend on the zone the process runs in
+                    timeutils.set_time_override(dt)
+                    ts = timeutils.utcnow_ts()
+                    tsm = timeutils.utcnow_ts(microsecond=True)
+                    timeutils.clear_time_override()
+                    if ts != calendar.timegm(dt.timetuple()) or abs(tsm - (calendar.timegm(dt.timetuple()) + dt.microsecond / 1e6)) > 1e-5:
+                        problems.append('utcnow_ts under an override of %s with local zone %s -> %s / %s' % (dt, zone, ts, tsm))
                     for ext in (datetime.datetime.min, datetime.datetime.max, dt):
                         for aware in (False, True):
                             x = ext.replace(tzinfo=datetime.timezone.utc) if aware else ext
